@@ -397,6 +397,91 @@ def h_serial_silence(ctx, which, when, dt=False):
     return "%s:%s" % (when, kind_)
 
 
+def h_tridonic_parked(ctx, nsend):
+    """More concurrent in-transaction senders than the interface has command slots (two): the surplus ones are
+    parked waiting for a slot when the adapter disappears before anything was reported.  Everybody fails (or
+    is retried after the reconnection), no slot stays taken, and a send issued after the reconnection
+    completes with its own answer."""
+    with rigs.HidRig(ctx, 23) as rig:
+        exceptions = ctx.fresh_bool("exceptions")
+        kind = ["eof", "oserror"][ctx.fresh_choice("kind", 2)]
+        vals = [ctx.fresh("v%d" % i, 0, 255) for i in range(nsend + 1)]
+        cmds = [gg.QueryActualLevel(A.GearShort(i + 1)) for i in range(nsend + 1)]
+        out = {}
+
+        async def main(loop):
+            state = {"lost": False}
+            d = H.tridonic("/dev/dali", reconnect_interval=1)
+            if ctx.symbolic:
+                from symx import shims
+                d._outstanding = shims.SymKeyDict()
+            d.exceptions_on_send = exceptions
+
+            def gateway(data):
+                if data[0] == 0x01:
+                    if data[1] == 0x00:
+                        loop.call_soon(rig.deliver, loop, d, bytes([1, 0, 0, 1, 2] + [0] * 59))
+                    else:
+                        loop.call_soon(rig.deliver, loop, d, bytes([1, 1, 2, 3, 4] + [0] * 59))
+                    return
+                if data[0] != 0x12 or not state["lost"]:
+                    return                      # before the loss the interface is busy: no report yet
+                s = data[1]
+                fr = list(data[4:8])
+                val = vals[(fr[2] >> 1) - 1]
+                loop.call_soon(rig.deliver, loop, d, rigs.tridonic_report(0x12, 0x73, fr, s))
+                loop.call_soon(rig.deliver, loop, d, rigs.tridonic_report(0x12, 0x72, [0, 0, 0, val], s))
+            rig.os.on_write = gateway
+            d.connect()
+            await asyncio.sleep(0.2)
+            tasks = [asyncio.ensure_future(d.send(c, in_transaction=True)) for c in cmds[:nsend]]
+            await asyncio.sleep(0.3)
+            out["written_before_loss"] = sum(1 for w in rig.os.writes if w[0] == 0x12)
+            state["lost"] = True
+            rig.deliver(loop, d, b"" if kind == "eof" else OSError("gone"))
+            await asyncio.sleep(6.0)
+            out["first"] = [_result(t) for t in tasks]
+            last = asyncio.ensure_future(d.send(cmds[nsend]))
+            await asyncio.sleep(6.0)
+            out["last"] = _result(last)
+            out["connected"] = d.connected.is_set()
+            out["outstanding"] = len(d._outstanding)
+            out["sem"] = d._command_semaphore._value
+            out["locked"] = d.transaction_lock.locked()
+            for t in tasks + [last]:
+                if not t.done():
+                    t.cancel()
+            d.disconnect()
+            await vloop.settle(3)
+        st, r = call(vloop.run, main)
+        tag = "tridonic/parked-%d" % nsend
+        if st == "exc":
+            ctx.fail("harness run raised %r" % (r,), key=tag + "/run-raised:" + type(r).__name__)
+            return "raised"
+        ctx.prove(out["written_before_loss"] == 2, "%d commands written with two command slots"
+                  % out["written_before_loss"], key=tag + "/slots-used")
+        for i, res in enumerate(out["first"]):
+            kind_, payload = res
+            ctx.prove(kind_ != "pending", "sender %d still waiting 6 s after the loss" % i, key=tag + "/hang")
+            if kind_ == "exc":
+                ctx.prove(exceptions and isinstance(payload, CommunicationError), "sender %d got %r" % (i, payload),
+                          key=tag + "/exception")
+            elif kind_ == "ok":
+                ok = not exceptions or i >= 2     # with exceptions on, the two in flight must have failed
+                good = type(payload) is C.NumericResponseMask and payload.raw_value is not None
+                ctx.prove(ok and good and E.eq(payload.raw_value.as_integer, vals[i]),
+                          "sender %d completed with %r" % (i, payload), key=tag + "/answer")
+        kind_, payload = out["last"]
+        good = kind_ == "ok" and type(payload) is C.NumericResponseMask and payload.raw_value is not None
+        ctx.prove(good and E.eq(payload.raw_value.as_integer, vals[nsend]),
+                  "a send after the reconnection gave %s %r" % (kind_, payload), key=tag + "/after-reconnection")
+        ctx.prove(out["connected"], "not connected after the device came back", key=tag + "/reconnected")
+        ctx.prove(out["outstanding"] == 0 and out["sem"] == 2 and not out["locked"],
+                  "left behind: %d in-flight slot(s), semaphore %r, lock %r"
+                  % (out["outstanding"], out["sem"], out["locked"]), key=tag + "/leftovers")
+        return "exc=%s %s" % (exceptions, ",".join(k for k, _ in out["first"]))
+
+
 def h_serial_cancel(ctx, which, dt=False):
     """A healthy serial gateway (confirmation 20/50 ms after the write, answer 12 ms later).  The first send is
     cancelled by its caller at a solver-chosen moment - before the write, while waiting for the confirmation,
@@ -487,6 +572,8 @@ def cases(tier):
             cs.append(Case("%s-silent-%s" % (which, when), h_serial_silence, {"which": which, "when": when}))
             cs.append(Case("%s-silent-%s-dt" % (which, when), h_serial_silence,
                            {"which": which, "when": when, "dt": True}))
+    for n in (3, 4):
+        cs.append(Case("tridonic-parked-%d" % n, h_tridonic_parked, {"nsend": n}, install=inst))
     for which in ("luba", "sci"):
         cs.append(Case("%s-cancel" % which, h_serial_cancel, {"which": which}))
         cs.append(Case("%s-cancel-dt" % which, h_serial_cancel, {"which": which, "dt": True}))
